@@ -166,7 +166,7 @@ impl Config {
 // ---------------------------------------------------------------------------------------------
 // generator of flat bodies
 
-struct Gen<'a> { rng: &'a mut Rng, cfg: &'a Config, locals: Vec<(String, Ty)>, hist: &'a mut BTreeMap<&'static str, u64>, diffsw: bool }
+struct Gen<'a> { rng: &'a mut Rng, cfg: &'a Config, locals: Vec<(String, Ty)>, hist: &'a mut BTreeMap<&'static str, u64>, diffsw: bool, difflen: usize }
 
 fn float_src(bits: u32) -> String {
     let x = f32::from_bits(bits);
@@ -199,7 +199,8 @@ impl<'a> Gen<'a> {
         if self.diffsw && self.rng.chance(1, 6) {
             // a difficulty switch whose cases are atoms (stays an argument all the way down), with holes
             self.bump("diff_switch");
-            let n = 2 + self.rng.below(3) as usize;
+            // (every switch of a body has the same number of cases: validate_difficulty rejects a statement that mixes lengths)
+            let n = self.difflen;
             let mut parts = vec![self.plain_atom(ty)];
             for _ in 1..n { if self.rng.chance(1, 4) { parts.push(String::new()); } else { parts.push(self.plain_atom(ty)); } }
             return format!("({})", parts.join(":"));
@@ -263,7 +264,24 @@ impl<'a> Gen<'a> {
             let ty = if self.rng.chance(1, 2) { Ty::Int } else { Ty::Float };
             let depth = self.rng.below(4) as u32;
             match self.rng.below(12) {
-                0..=3 => { self.bump("stmt_assign"); let v = self.var(ty, true); let e = self.expr(ty, depth); writeln!(out, "{} = {};", v, e).unwrap(); },
+                0 => {
+                    // the destination named inside one operand (directly or in a difficulty switch), the other operand
+                    // compound: the "compute straight into the destination" shortcut must not clobber it
+                    self.bump("stmt_assign_selfref");
+                    let v = self.var(ty, true);
+                    let me = if self.diffsw && self.rng.chance(2, 3) {
+                        self.bump("diff_switch_selfref");
+                        let n = self.difflen;
+                        let at = self.rng.below(n as u64) as usize;
+                        let mut parts: Vec<String> = vec![];
+                        for i in 0..n { parts.push(if i == at { v.clone() } else if i > 0 && self.rng.chance(1, 4) { String::new() } else { self.plain_atom(ty) }); }
+                        format!("({})", parts.join(":"))
+                    } else { v.clone() };
+                    let od = 1 + self.rng.below(2) as u32; let other = self.expr(ty, od);
+                    let op = if ty == Ty::Int { *self.rng.pick(&["+", "-", "*", "/", "%"]) } else { *self.rng.pick(&["+", "-", "*"]) };
+                    if self.rng.chance(1, 2) { writeln!(out, "{} = {} {} {};", v, me, op, other).unwrap(); } else { writeln!(out, "{} = {} {} {};", v, other, op, me).unwrap(); }
+                },
+                1..=3 => { self.bump("stmt_assign"); let v = self.var(ty, true); let e = self.expr(ty, depth); writeln!(out, "{} = {};", v, e).unwrap(); },
                 4 => { self.bump("stmt_compound"); let v = self.var(ty, true); let op = *self.rng.pick(&["+=", "-=", "*=", "/=", "%="]); let e = self.expr(ty, depth); writeln!(out, "{} {} {};", v, op, e).unwrap(); },
                 5 => {
                     self.bump("stmt_decl");
@@ -589,8 +607,9 @@ fn main() {
                 let mut r = rng.fork();
                 let bits = r.next_u64() & 0xfff | if r.chance(3, 4) { 32 } else { 0 };
                 let cfg = Config::new(bits);
-                let diffsw = r.chance(1, 5);
-                let text = { let mut g = Gen { rng: &mut r, cfg: &cfg, locals: vec![], hist: &mut hist, diffsw }; let n = 2 + g.rng.below(7) as usize; g.body(n) };
+                let diffsw = r.chance(1, 4);
+                let difflen = 2 + r.below(3) as usize;
+                let text = { let mut g = Gen { rng: &mut r, cfg: &cfg, locals: vec![], hist: &mut hist, diffsw, difflen }; let n = 2 + g.rng.below(7) as usize; g.body(n) };
                 let o = run_case(&cfg, &text, &mut r, 4);
                 if let Some(why) = &o.rejected { *rejected.entry(why.chars().take(40).collect()).or_insert(0) += 1; }
                 report(&cfg, &text, &o);
